@@ -1053,6 +1053,14 @@ class Emit:
             return (self.ex(recv[1]), False, False)          # `m.lock().unwrap()`: the guard IS the value (mutexes are not modelled)
         if m == "unwrap" and not args: return (f"(Rs.unwrap {self.atom(recv)})", False, False)
         fn_name = self.unit.get("method_map", {}).get(m, f"Rs.{lname(m)}")      # per-unit meaning of a std method name
+        if m == "starts_with":
+            # the vocabulary is selected by NAME (no type inference): `Path::starts_with` is component-wise, `str::starts_with`
+            # is a plain prefix test — a receiver that went through a text conversion is a `str`
+            r = recv
+            while r[0] in ("mcall", "paren", "try"):
+                if r[0] == "mcall" and r[2] in ("to_str", "to_string_lossy", "as_str", "to_string", "display", "as_os_str", "as_bytes"):
+                    fn_name = "Rs.str_starts_with"; break
+                r = r[1]
         return ("(" + " ".join([fn_name, self.atom(recv)] + [self.atom(x) for x in args]) + ")", False, False)
     def macro(self, e):
         name = "::".join(e[1])
